@@ -395,6 +395,17 @@ PPL::Grid::frequency_no_check(const Linear_Expression& expr,
   // Reduce `val_n' by the frequency `freq_n'.
   val_n %= freq_n;
 
+  // Among the values congruent to `val_n' modulo `freq_n',
+  // select the one that is closest to zero.
+  PPL_DIRTY_TEMP_COEFFICIENT(twice_val_n);
+  twice_val_n = 2 * val_n;
+  if (twice_val_n > freq_n) {
+    val_n -= freq_n;
+  }
+  else if (-twice_val_n > freq_n) {
+    val_n += freq_n;
+  }
+
   PPL_DIRTY_TEMP_COEFFICIENT(gcd);
   // Reduce `freq_n' and `freq_d'.
   gcd_assign(gcd, freq_n, freq_d);
